@@ -372,4 +372,19 @@ HeldNoFinishSpec ==
     /\ Init /\ [][HeldNext]_vars
     /\ WF_vars(HeldApiDo) /\ WF_vars(TimerFire) /\ WF_vars(LoopWake) /\ WF_vars(LoopPass)
     /\ \A w \in Workers : WF_vars(WorkerStart(w)) /\ WF_vars(WorkerCkpt(w)) /\ WF_vars(WorkerPark(w))
+(* Variant, expected counterexample: Release stops the timer once the queue is empty but leaves s.when at  *)
+(* the released item's time; a later Schedule at or after that time does not arm the timer (SchedTimer):   *)
+(* the new item is stranded - NeverStranded fails.                                                          *)
+RelStopRelease ==
+    /\ pend # NoOp /\ pend.t = "R" /\ pend' = NoOp
+    /\ RelCore(pend.id)
+    /\ timerAt' = (IF queue' = {} THEN None ELSE timerAt) /\ UNCHANGED swhen
+    /\ UNCHANGED <<now, tick, pc, wof, napi, ran, ckAll, bad>>
+RelStopNext ==
+    \/ \E op \in ApiOps : ApiCall(op)
+    \/ (pend.t # "R" /\ ApiDo) \/ RelStopRelease
+    \/ \E d \in 1..MaxClock : AdvanceClock(d)
+    \/ TimerFire \/ LoopWake \/ LoopPass
+    \/ \E w \in Workers : WorkerStart(w) \/ WorkerFinish(w) \/ WorkerCkpt(w) \/ WorkerPark(w)
+RelStopSpec == Init /\ [][RelStopNext]_vars
 =============================================================================
